@@ -227,6 +227,11 @@ fn make_crypto_reader<'a>(
         if let CompressionMethod::Unsupported(_) = compression_method {
             return unsupported_zip_error("Compression method not supported");
         }
+        // method 99 without a usable inner method in an AES extra field
+        #[cfg(feature = "aes-crypto")]
+        if let CompressionMethod::Aes = compression_method {
+            return unsupported_zip_error("Compression method not supported");
+        }
     }
 
     let reader = match (password, aes_info) {
